@@ -21,8 +21,8 @@ const (
 )
 
 type pathEl struct {
-	field int   // field index, or -1 for array index
-	idx   *Term // array index
+	field int        // field index, or -1 for array index
+	idx   *Term      // array index
 	T     types.Type // type of the container this step projects from
 }
 
@@ -41,13 +41,13 @@ type Addr struct {
 
 // RV is the translation-time value of an SSA register.
 type RV struct {
-	T     Term
-	A     *Addr
-	Tuple []RV
-	Clos  *ClosInfo
-	Iter  *IterInfo
-	Typ   types.Type
-	Valid bool
+	T      Term
+	A      *Addr
+	Tuple  []RV
+	Clos   *ClosInfo
+	Iter   *IterInfo
+	Typ    types.Type
+	Valid  bool
 	ArrObj bool // T is the row (in the element heap) of a heap-allocated array object
 }
 
@@ -67,12 +67,12 @@ type IterInfo struct {
 // symbolic state
 
 type State struct {
-	pc     Term
-	cells  map[*ssa.Alloc]Term
-	ghost  map[ssa.Value]Term // per-instruction ghost cells (range visited sets, defer flags)
-	heap   map[string]Term
-	epoch  int
-	dead   bool
+	pc    Term
+	cells map[*ssa.Alloc]Term
+	ghost map[ssa.Value]Term // per-instruction ghost cells (range visited sets, defer flags)
+	heap  map[string]Term
+	epoch int
+	dead  bool
 }
 
 func (s *State) clone() *State {
@@ -95,11 +95,14 @@ type WriteSet struct {
 	ghost map[ssa.Value]bool
 	comps map[string]string // name -> sort
 	types map[string]types.Type
-	all   bool
+	// structT: struct sorts known to the encoder that computed the write set (sort name -> Go type);
+	// declared in the caller before the havoc, since a component's sort may mention them
+	structT map[string]types.Type
+	all     bool
 }
 
 func newWriteSet() *WriteSet {
-	return &WriteSet{cells: map[*ssa.Alloc]bool{}, ghost: map[ssa.Value]bool{}, comps: map[string]string{}, types: map[string]types.Type{}}
+	return &WriteSet{cells: map[*ssa.Alloc]bool{}, ghost: map[ssa.Value]bool{}, comps: map[string]string{}, types: map[string]types.Type{}, structT: map[string]types.Type{}}
 }
 
 func (w *WriteSet) addAll(o *WriteSet) {
@@ -108,6 +111,9 @@ func (w *WriteSet) addAll(o *WriteSet) {
 	}
 	for k, v := range o.types {
 		w.types[k] = v
+	}
+	for k, v := range o.structT {
+		w.structT[k] = v
 	}
 	if o.all {
 		w.all = true
